@@ -5,6 +5,7 @@ import (
 	"encoding/json"
 	"fmt"
 	"math/rand"
+	"os"
 	"regexp"
 	"sort"
 	"strconv"
@@ -270,14 +271,27 @@ func runCase(c *fw.Ctx, idx int, count bool) {
 	seed := lr.Int63()
 	pn := 3 + lr.Intn(45)
 	eol := []string{"\n", "\n", "\r\n", "\r"}[lr.Intn(4)]
+	// a fifth of the programs is loaded from a file whose first line is a "#!"
+	// line: every token is then one line further down
+	header := ""
+	if lr.Intn(5) == 0 {
+		header = []string{"#!/usr/bin/env lua\n", "#\n", "#! lua -- not code: error('x') [[\n"}[lr.Intn(3)]
+	}
 	mkLayout := func() *last.Layout {
-		return &last.Layout{Wild: true, R: newRand(seed), PNewline: pn, AltStrings: true, Semis: true, ExtraParens: true, EOL: eol}
+		lay := &last.Layout{Wild: true, R: newRand(seed), PNewline: pn, AltStrings: true, Semis: true, ExtraParens: true, EOL: eol}
+		if header != "" {
+			lay.FirstLine = 2
+		}
+		return lay
 	}
 	chunk, g := build(c, idx)
 	src1 := last.Render(chunk, mkLayout())
 	cs := pcommon.Case{Index: idx, Src: src1}
 	c.Begin(cs)
-	cfg := &lrun.Config{OnState: onState, OnModel: onModel}
+	cfg := &lrun.Config{OnState: onState, OnModel: onModel, FileHeader: header}
+	if count && header != "" {
+		c.Count("programs_loaded_from_a_file_with_a_#_first_line", 1)
+	}
 	// (1) + (3): the model ran on the AST whose sites were filled by this rendering
 	m := lrun.RunModel(chunk, cfg)
 	impl1 := lrun.RunImpl(src1, cfg)
@@ -373,7 +387,17 @@ func runCase(c *fw.Ctx, idx int, count bool) {
 	c.End(m.Abort == "" && pos >= 3 && enum >= 1, src1)
 }
 
+// enterWork: programs loaded through LoadFile are written to a file named
+// "<string>" in the current directory (see lrun.Config.FileHeader); each
+// worker is a process of its own with a private work directory.
+func enterWork(c *fw.Ctx) {
+	if err := os.MkdirAll(c.Work, 0o755); err == nil {
+		os.Chdir(c.Work)
+	}
+}
+
 func run(c *fw.Ctx) {
+	enterWork(c)
 	total := c.Pick(20000, 600000)
 	for i := 0; i < total; i++ {
 		if c.Mine(i) {
@@ -387,6 +411,7 @@ func replay(c *fw.Ctx, raw json.RawMessage) {
 	if !ok {
 		return
 	}
+	enterWork(c)
 	runCase(c, cs.Index, false)
 }
 
